@@ -168,8 +168,12 @@ pub fn parts(id: &'static str, tier: Tier) -> Option<(Vec<Part<Case>>, String)> 
             let mut tog = c.clone();
             tog.toggle_pct = 15;
             tog.start_off_pct = 20;
+            let mut long = c.clone();
+            long.max_steps = 30;
+            long.max_batch = 4;
+            long.large_batch_pct = 0;
             Some((
-                vec![exhaustive_env_part("exhaustive-batches-of-2", 2, tier.pick(24, 64), false), exhaustive_env_part("exhaustive-batches-of-3", 3, tier.pick(4, 24), false), env_part("env-random-single", single, tier.pick(20_000, 600_000)), env_part("env-random-multi", multi, tier.pick(12_000, 300_000)), env_part("env-random-toggles", tog, tier.pick(8_000, 200_000))],
+                vec![env_part("env-random-long-runs", long, tier.pick(2_500, 60_000)), exhaustive_env_part("exhaustive-batches-of-2", 2, tier.pick(24, 64), false), exhaustive_env_part("exhaustive-batches-of-3", 3, tier.pick(4, 24), false), env_part("env-random-single", single, tier.pick(20_000, 600_000)), env_part("env-random-multi", multi, tier.pick(12_000, 300_000)), env_part("env-random-toggles", tog, tier.pick(8_000, 200_000))],
                 format!("{}Oracle: after every step the set of processing orders consistent with everything observed so far (new orders pinned to position arrival-start, all arrangements of the other instructions) is replayed on REAL plain OrderBooks and must be non-empty, i.e. some permutation of the batch explains the environment's orders, trades and views exactly; plus clock = start+step size, per-step traded volume = that step's trades, empty steps change nothing. Non-trivial: at least one batch whose outcome depends on the processing order (measured by replaying the reversed order on the plain book).", common),
             ))
         }
@@ -177,14 +181,21 @@ pub fn parts(id: &'static str, tier: Tier) -> Option<(Vec<Part<Case>>, String)> 
             let mut c = EnvGenCfg::base();
             c.kinds = 1;
             c.toggle_pct = 5;
-            Some((vec![exhaustive_env_part("exhaustive-batches-of-2", 2, tier.pick(16, 64), false), exhaustive_env_part("exhaustive-batches-of-3", 3, tier.pick(2, 16), false), env_part("marketenv-random", c, tier.pick(12_000, 300_000))], format!("{}MarketEnv cases: schedule inference as in C08 with an array of stand-alone real books as reference, each asset's instructions replayed on its own book at the candidate's global times. Non-trivial: >= 2 assets with resting orders and an order-sensitive batch.", common)))
+            let mut long = c.clone();
+            long.max_steps = 24;
+            long.max_batch = 4;
+            long.large_batch_pct = 0;
+            Some((vec![env_part("marketenv-random-long-runs", long, tier.pick(2_000, 50_000)), exhaustive_env_part("exhaustive-batches-of-2", 2, tier.pick(16, 64), false), exhaustive_env_part("exhaustive-batches-of-3", 3, tier.pick(2, 16), false), env_part("marketenv-random", c, tier.pick(12_000, 300_000))], format!("{}MarketEnv cases: schedule inference as in C08 with an array of stand-alone real books as reference, each asset's instructions replayed on its own book at the candidate's global times. Non-trivial: >= 2 assets with resting orders and an order-sensitive batch.", common)))
         }
         "C10" => {
             let mut c = EnvGenCfg::base();
             c.toggle_pct = 5;
             c.large_batch_pct = 0;
+            let mut long = c.clone();
+            long.max_steps = 80;
+            long.max_batch = 5;
             Some((
-                vec![exhaustive_env_part("exhaustive-batches-of-3", 3, tier.pick(4, 24), false), env_part("env-random-submissions", c, tier.pick(150_000, 2_000_000))],
+                vec![env_part("env-random-long-runs", long, tier.pick(4_000, 100_000)), exhaustive_env_part("exhaustive-batches-of-3", 3, tier.pick(4, 24), false), env_part("env-random-submissions", c, tier.pick(150_000, 2_000_000))],
                 format!("{}Oracle: the complete observable state of the environment (live book snapshot per asset, every recorded series, cached level-2) is compared before and after EVERY submission and must be identical except for exactly one appended order record with status New; the cached level-2 must equal the live book's level-2 after construction, after every submission and after every step. Non-trivial: a submission that would trade or move the touch if applied directly, against a non-empty book.", common),
             ))
         }
@@ -192,8 +203,11 @@ pub fn parts(id: &'static str, tier: Tier) -> Option<(Vec<Part<Case>>, String)> 
             let mut c = EnvGenCfg::base();
             c.large_batch_pct = 0;
             c.w_new = 75;
+            let mut long = c.clone();
+            long.max_steps = 120;
+            long.max_batch = 5;
             Some((
-                vec![exhaustive_env_part("exhaustive-batches-of-3", 3, tier.pick(4, 24), false), env_part("env-random-records", c, tier.pick(200_000, 3_000_000))],
+                vec![env_part("env-random-long-runs", long, tier.pick(5_000, 120_000)), exhaustive_env_part("exhaustive-batches-of-3", 3, tier.pick(4, 24), false), env_part("env-random-records", c, tier.pick(200_000, 3_000_000))],
                 format!("{}Oracle: after step k every recorded series (touch prices, side volumes, touch volumes and counts, per-level volumes and counts for each of the L levels, per-step traded volume) has exactly k entries, entry k-1 equals the value read from the live book after the step (bid series vs bid getters), earlier entries are unchanged, and traded volume k-1 equals both the volume logged during the step and the volume of trades time-stamped within it. Non-trivial: a step whose book differs between bid and ask in total volume, touch volume and touch count and has an occupied level >= 1 on both sides.", common),
             ))
         }
